@@ -145,6 +145,7 @@ type ToResult struct {
 	Panic string
 	Obj   *TV
 	Diags []Diag
+	Dups  int // raw diagnostics beyond the distinct ones (the same problem reported more than once)
 	Real  types.Object
 	Hooks []support.HookCall
 }
@@ -154,6 +155,7 @@ type FromResult struct {
 	Panic string
 	Val   *GV
 	Diags []Diag
+	Dups  int // raw diagnostics beyond the distinct ones (the same problem reported more than once)
 	Hooks []support.HookCall
 }
 
@@ -187,6 +189,7 @@ func (p *Program) ExecTo(r *Root, src *GV, target *TV) (res ToResult) {
 		}()
 		ds := r.To(bg, v, &obj)
 		res.Diags = Canon(ds)
+		res.Dups = len(ds) - len(res.Diags)
 	}()
 	res.Hooks = support.Log()
 	if res.Panic == "" {
@@ -215,6 +218,7 @@ func (p *Program) ExecFrom(r *Root, obj *TV, prior *GV) (res FromResult) {
 		}()
 		ds := r.From(bg, o, v)
 		res.Diags = Canon(ds)
+		res.Dups = len(ds) - len(res.Diags)
 	}()
 	res.Hooks = support.Log()
 	if res.Panic == "" {
